@@ -25,3 +25,5 @@ def run(prog, rep):
     r_safe.run_colidx(prog, rep)
     from ..rules import r_io as _rio3
     _rio3.run_memtype(prog, rep)
+    from ..rules import r_key as _rkx
+    _rkx.run_handles_only(prog, rep)
